@@ -52,6 +52,10 @@ register("C12", "model_checking", "E3 bfs", "explicit-state breadth-first search
          "All call histories of length <= 4 (thorough 6) in the property's language over 12 calls, on 4 intact and 3 damaged archives x path/BytesIO/file object, each replayed on a fresh SevenZipFile under three endings; oracle = differential against the freshly opened archive, verdict correctness on damaged copies, SHA-256 of the archive, watchdog. The property quantifies over histories, so an exhaustive search of the bounded language is the matching level.",
          "State merging relies on the census of mutable session fields (checked against vars() at run time; unknown attribute => dedup off); one configuration is additionally explored with dedup off as a cross-check.", "DESIGN.md section 5 C12")
 
+register("C09", "exploration", "E1 explore", "exhaustive enumeration of all target subsets x option product on the real extractor",
+         "All 2^n subsets of the member names of three archives (solid, reference-written multi-folder with interleaved directories, py7zr append sessions) with/without an absent name x list/set x trailing slash x recursive x factory/directory sink x stream/path (sequential/thread-parallel); oracle = restriction of the member map, nothing else created. The target space is finite, so it is enumerated completely.",
+         "Names respect the property's prefix restriction; bytes are compared with the archive's own member map (the same that extractall delivers, checked by C01/C06).", "DESIGN.md section 5 C09")
+
 NOT_YET = {}
 
 
